@@ -252,7 +252,7 @@ theorem wellFormedKey_single (name k : Str) (hn : '[' ∉ name) (hk : ']' ∉ k)
     wellFormedKey name (name ++ '[' :: (k ++ [']'])) = true := by
   simp [wellFormedKey, deepKey_single name k hn hk, brackets]
 
-/-- the specification's filter keeps every key of an encoded deepObject request -/
+/-- the key filter keeps every key of an encoded deepObject request -/
 theorem strictReq_deepEnc (name : Str) (hn : '[' ∉ name) (kvs : List (Str × Str)) (hk : ∀ kv ∈ kvs, ']' ∉ kv.1) :
     strictReq name { query := deepEnc name kvs } = { query := deepEnc name kvs } := by
   simp only [strictReq]
@@ -263,14 +263,7 @@ theorem strictReq_deepEnc (name : Str) (hn : '[' ∉ name) (kvs : List (Str × S
   obtain ⟨x, hx, rfl⟩ := hkv
   exact wellFormedKey_single name x.1 hn (hk x hx)
 
-theorem deepReq_deepEnc (fl : Flavour) (name : Str) (hn : '[' ∉ name) (kvs : List (Str × Str)) (hk : ∀ kv ∈ kvs, ']' ∉ kv.1) :
-    fl.deepReq name { query := deepEnc name kvs } = { query := deepEnc name kvs } := by
-  unfold Flavour.deepReq
-  split
-  · exact strictReq_deepEnc name hn kvs hk
-  · rfl
-
-/-- without junk keys the specification sees the request as it is -/
+/-- without junk keys the deepObject branch sees the request as it is -/
 theorem strictReq_of_noJunk (name : Str) (r : Req) (h : r.query.any (fun kv => !wellFormedKey name kv.1) = false) :
     strictReq name r = r := by
   have : r.query.filter (fun kv => wellFormedKey name kv.1) = r.query := by
